@@ -372,7 +372,8 @@ def gcDUnderline (t : GcTarget) (x : GcAcc) : GcAcc :=
 def gcFg (o : AnsiOpts) (t : GcTarget) (x : GcAcc) : AnsiState × List Nat × List Nat :=
   if t.curFore != x.1.fg then
     match t.foreIdx with
-    | some i => ({ x.1 with fgIdx := t.fgc, fg := t.curFore }, x.2 ++ [colorOffsets.getD i 0 + 30], [])
+    -- the terminal is on DOS colour `i` now (SGR 1 brightens THAT colour), whatever palette slot the cell used
+    | some i => ({ x.1 with fgIdx := i + (if t.bold then 8 else 0), fg := t.curFore }, x.2 ++ [colorOffsets.getD i 0 + 30], [])
     | none => match xtermIndex o.useExtendedColors t.curFore with
       | some e => ({ x.1 with fgIdx := t.fgc, fg := t.curFore }, x.2 ++ [38, 5, e], [])
       | none => ({ x.1 with fgIdx := t.fgc, fg := t.curFore }, x.2, [1, t.curFore.1, t.curFore.2.1, t.curFore.2.2])
@@ -415,11 +416,12 @@ def trimScan (row : List Cell) (lastAttr : Attr) : Nat → Nat → Nat
     else last
 
 /-- number of cells of the row that `generate_cells` emits -/
-def ansiRowLen (o : AnsiOpts) (w : Nat) (row : List Cell) : Nat :=
+def ansiRowLen (o : AnsiOpts) (pal : List Rgb) (w : Nat) (row : List Cell) : Nat :=
   if o.compress && !o.preserveLineLength then
     let lastAttr := (row.getD (w - 1) defaultCell).attr
-    -- trimmed cells come back as default blanks: blinking blanks must stay
-    let last := if lastAttr.bg = 0 ∧ !lastAttr.fl.blink then trimScan row lastAttr w (w - 1) else w - 1
+    -- trimmed cells come back as default blanks: blinking blanks must stay, and colour 0 must be black (the reader's
+    -- default background), not a custom palette entry
+    let last := if lastAttr.bg = 0 ∧ getRgb pal 0 = (0, 0, 0) ∧ !lastAttr.fl.blink then trimScan row lastAttr w (w - 1) else w - 1
     -- "don't compress if we have only one char, since eol are 2 chars"
     if w ≤ last + 1 + 1 then w else last + 1
   else w
@@ -440,7 +442,7 @@ def genCellsRow (o : AnsiOpts) (pal : List Rgb) (im : IceMode) (row : List Cell)
 def genCells (o : AnsiOpts) (pal : List Rgb) (im : IceMode) (w : Nat) : List (List Cell) → AnsiState → List (List CharCell)
   | [], _ => []
   | row :: rest, st =>
-    let (line, st1) := genCellsRow o pal im row (ansiRowLen o w row) 0 st
+    let (line, st1) := genCellsRow o pal im row (ansiRowLen o pal w row) 0 st
     line :: genCells o pal im w rest st1
 
 /-- decimal digits of `n` (`to_string`), most significant first -/
@@ -497,7 +499,7 @@ def genLine (o : AnsiOpts) (w : Nat) : Nat → Nat → List CharCell → List Na
     if o.compress then
       let cuf := csi [rle + 1] 67
       -- a run that reaches the right margin must be printed: CSI n C stops at the last column and does not wrap
-      if o.useCursorForward ∧ cell.ch = 32 ∧ cell.cur.bgIdx = 0 ∧ !cell.cur.isBlink ∧ x + rle + 1 < w ∧ cuf.length ≤ rle then
+      if o.useCursorForward ∧ cell.ch = 32 ∧ cell.cur.bgIdx = 0 ∧ cell.cur.bg = (0, 0, 0) ∧ !cell.cur.isBlink ∧ x + rle + 1 < w ∧ cuf.length ≤ rle then
         pre ++ cuf ++ genLine o w fuel (x + rle + 1) (rest.drop rle)
       else
         let rp := csi [rle] 98
